@@ -1,6 +1,6 @@
 (* C14  before_sleep/before_handle_events: once per dispatch, in order, right events. *)
 From CV Require Import Base Consts Token PostAction Env Loop.
-From CVP Require Import Loop_frames Seq_lemmas C14_proofs.
+From CVP Require Import Loop_frames Seq_lemmas C14_proofs C14_life.
 Open Scope N_scope.
 
 (* the set of sources with lifecycle events: recording is idempotent (no duplicate entry after update/Reregister),
@@ -28,6 +28,19 @@ Proof. intros. apply filter_In. Qed.
 Theorem C14_no_unreachable_if_resolved : forall bscr l s,
   (forall t, In t l -> exists o, lc_lookup s t = Some o) -> snd (before_sleep_loop bscr s l) <> BSPanic.
 Proof. exact before_sleep_loop_no_panic. Qed.
+
+(* WHOLE HISTORIES of top-level operations: after ANY sequence of insert (also failing ones), remove, enable, disable, update,
+   set_interest, set_deadline, into_inner, dropped dispatchers, pings, sends and idles issued on the empty loop, every lifecycle
+   entry resolves to an occupied slot holding a lifecycle source (INV), so the two lifecycle loops of the next dispatch cannot
+   reach unreachable!(). (The repaired defect F2 broke exactly this. Closing the invariant under callbacks - where the source
+   being processed may have vacated its slot until its processing ends, the F15 corner - is not proved; see DESIGN.md 11.9.) *)
+Theorem C14_lifecycle_consistent_after_any_operations : forall acts, INV (exec_actions init acts).
+Proof. intros acts. apply INV_exec_actions. exact INV_init. Qed.
+Theorem C14_next_dispatch_never_unreachable : forall acts bscr, let s := exec_actions init acts in
+  snd (before_sleep_loop bscr s (lifecycle s)) <> BSPanic /\
+  forall e2 line polled, let s1 := fst (before_sleep_loop bscr s (lifecycle s)) in
+    snd (before_handle_loop (emit (set_en s1 e2) line) (lifecycle (emit (set_en s1 e2) line)) polled) = true.
+Proof. exact lifecycle_loops_safe. Qed.
 
 Example C14_nonvacuous :
   let t := mkTok 2 5 0 in NoDup [mkTok 1 0 0; t] /\ lc_register [mkTok 1 0 0; t] t = [mkTok 1 0 0; t] /\ lc_unregister [mkTok 1 0 0; t] t = [mkTok 1 0 0].
